@@ -503,6 +503,25 @@ class Walker:
             self._finish(st, ("diverge", k))
             return
 
+    @staticmethod
+    def _vec_macro(st, box):
+        """the array literal stored through the pointer of `box` (= `Box::new_uninit()` of this path), if that is all that happened to it"""
+        b = strip_refs(box)
+        if not (isinstance(b, tuple) and b[0] == "call" and b[1].endswith("boxed::Box::new_uninit") or (isinstance(b, tuple) and b[0] == "call" and "Box::<T>::new_uninit" in b[1])):
+            return None
+
+        def mentions(e):
+            if e == b:
+                return True
+            return isinstance(e, tuple) and any(mentions(x) for x in e)
+        hits = [ev for ev in st["events"] if ev[0] == "store" and mentions(ev[1])]
+        if len(hits) != 1:
+            return None
+        v = strip_refs(hits[0][2])
+        if isinstance(v, tuple) and v[0] == "agg" and v[1] == "array":
+            return v
+        return None
+
     def _call(self, st, t, bi):
         f = t["f"]
         name = callee_name(f)
@@ -543,6 +562,9 @@ class Walker:
                 and strip_refs(args[0])[3] in ("Some", "None", "Ok", "Err"):
             # `Some(v).is_some()` etc. on a constructor built on this path: a constant
             val = ("c", "bool", int((strip_refs(args[0])[3] in ("Some", "Ok")) == name.endswith(("is_some", "is_ok"))))
+        elif name.endswith("boxed::box_assume_init_into_vec_unsafe") and len(args) == 1 and self._vec_macro(st, args[0]) is not None:
+            # `vec![a, b]`: the array written into the fresh box is the vector's content — the same value as `[a, b].to_vec()`
+            val = ("call", "std::slice::<impl [T]>::to_vec", (self._vec_macro(st, args[0]),), bi)
         elif t["t"] is not None and COMBINATOR.search(name) and self._combinator(st, t, bi, name, args):
             return None
         else:
@@ -659,6 +681,28 @@ class Walker:
                 self._walk(t["t"], st)
                 return True
             return self._apply(st, F, payload, t, wrap)
+        if short == "map_err" and not is_opt and len(args) == 2 and isinstance(strip_refs(args[1]), tuple) and strip_refs(args[1])[0] == "fnref":
+            # `x.map_err(helper)` with a local helper *outside the reference vocabulary* (an error map that was extracted into a private fn):
+            # the same two arms as `match x { Ok(v) => Ok(v), Err(e) => Err(helper(e)) }`.  (Closures and vocabulary functions keep the
+            # opaque form that `?` looks through — the reference tables are written against it.)
+            F = strip_refs(args[1])
+            g = self._inline_target({}, did=F[1])
+            if g is None or g.body["argc"] != 1:
+                return False
+            dty = ""
+            try:
+                dty = self.fn.body["locals"][t["dest"]["l"]]["ty"]
+            except Exception:
+                pass
+            okv = ("agg", "tuple", "", "", 0, ()) if re.match(r"^(std|core)::result::Result<\(\), ", dty or "") else ("ok", x)
+            s2 = self._fork(st)
+            if self._assume(s2, simp_atom(("is", x, "Ok"))):
+                self.assign(s2, t["dest"], ("agg", "adt", "std::result::Result", "Ok", 0, (okv,)))
+                self._walk(t["t"], s2)
+            s2 = self._fork(st)
+            if self._assume(s2, simp_atom(("is", x, "Err"))):
+                self._inline(s2, g, {1: ("err", x)}, t, ("wrap", "std::result::Result", "Err", 1))
+            return True
         if short == "transpose" and is_opt and len(args) == 1 and isinstance(x, tuple) and x[0] == "agg" and x[1] == "adt":
             if x[3] == "None":
                 v = ("agg", "adt", "std::result::Result", "Ok", 0, (x,))
